@@ -422,6 +422,21 @@ http_handler_fn(nng_http *conn, void *arg, nng_aio *aio)
 	nng_aio_finish(aio, NNG_OK);
 }
 
+// the document root: nobody asks for it in this program, so a response from it is a response to a
+// request that was never made
+static void
+http_root_fn(nng_http *conn, void *arg, nng_aio *aio)
+{
+	(void) arg;
+	nng_err rv = nng_http_copy_body(conn, "root", 4);
+	if (rv != NNG_OK) {
+		nng_aio_finish(aio, rv);
+		return;
+	}
+	nng_http_set_status(conn, NNG_HTTP_STATUS_OK, NULL);
+	nng_aio_finish(aio, NNG_OK);
+}
+
 static void
 http_run(Params *p)
 {
@@ -437,6 +452,14 @@ http_run(Params *p)
 	int rv = chk(nng_http_server_add_handler(srv, h), "nng_http_server_add_handler");
 	if (rv != 0) {
 		rv = chk(nng_http_server_add_handler(srv, h), "nng_http_server_add_handler");
+		if (rv != 0)
+			VIOL("stuck_after_enomem", "add_handler keeps failing");
+	}
+	nng_http_handler *hroot = NULL;
+	RETRY(nng_http_handler_alloc(&hroot, "/", http_root_fn), "nng_http_handler_alloc");
+	rv = chk(nng_http_server_add_handler(srv, hroot), "nng_http_server_add_handler");
+	if (rv != 0) {
+		rv = chk(nng_http_server_add_handler(srv, hroot), "nng_http_server_add_handler");
 		if (rv != 0)
 			VIOL("stuck_after_enomem", "add_handler keeps failing");
 	}
@@ -475,6 +498,9 @@ http_run(Params *p)
 			void  *body;
 			size_t len;
 			nng_http_get_body(conn, &body, &len);
+			if (len == 4 && memcmp(body, "root", 4) == 0)
+				VIOL("wrong_request_served",
+				    "the request for /x was answered 200 with the document root's body: the server served a request nobody made");
 			if (len != 5 || memcmp(body, "hello", 5) != 0)
 				VIOL("corrupt_message", "http body wrong (%zu bytes)", len);
 			nng_http_close(conn);
@@ -534,6 +560,11 @@ http_run(Params *p)
 			    memcmp(body, page, len) == 0;
 			if (!good && sim_alloc_fault_hit() == 0)
 				h_fatal("http status %d, %zu bytes", (int) nng_http_get_status(conn), len);
+			if (nng_http_get_status(conn) == NNG_HTTP_STATUS_OK)
+				VIOL("wrong_request_served",
+				    "the request for a long URI that does not exist was answered 200 (%zu bytes '%.*s'): an allocation "
+				    "failure made the server serve a different request than the one it was sent, instead of failing cleanly",
+				    len, (int) (len < 8 ? len : 8), len ? (const char *) body : "");
 			nng_http_close(conn);
 			if (good)
 				break;
